@@ -295,6 +295,15 @@ def main(argv):
             broken_theorem = "Properties/%s.v does not check" % pid
             log(pout[-2000:])
 
+    # the numeric parameters of the source, translated on every run, against the model's (Properties/<pid>Consts.v)
+    cinfo = {"obligations": 0, "discharged": 0, "theorems": [], "broken": None}
+    if bok:
+        import consts
+        cinfo = consts.check(pid)
+        if cinfo.get("broken") and not broken_theorem:
+            broken_theorem = cinfo["broken"]
+            log(cinfo["broken"])
+
     # hook for properties with extra generated obligations (C18 translator)
     gen_info = None
     if bok and "pre" in cfg:
@@ -400,15 +409,19 @@ def main(argv):
         "Go correspondence harness /verif/harness (generators, observers, canonicalisation) built against /repo with "
         "go1.26.8 test -overlay; testing/synctest fake clock where time is involved",
     ] + cfg.get("trusted_base", [])
+    if cinfo["obligations"]:
+        tb.append("translator/lockskel -consts: the package-level integer constants of /repo are read off the type-checked source on "
+                  "every run (Gen/ConstsGen.v) and Properties/%sConsts.v proves, one theorem per parameter, that the model uses them "
+                  "(%d theorems); constants written as literals inside functions are not covered" % (pid, cinfo["obligations"]))
     ev = {
         "property_id": pid, "tier": tier, "seed": seed, "level": "proof",
         "coverage": {
-            "obligations": len(theorems) + (gen_info.get("obligations", 0) if gen_info else 0),
-            "discharged": (len(theorems) if pok else 0) + (gen_info.get("discharged", 0) if gen_info else 0),
+            "obligations": len(theorems) + cinfo["obligations"] + (gen_info.get("obligations", 0) if gen_info else 0),
+            "discharged": (len(theorems) if pok else 0) + cinfo["discharged"] + (gen_info.get("discharged", 0) if gen_info else 0),
             "checker_cmd": "make -C coq (full .vo) && coqc Properties/%s.v ; go1.26.8 test -tags verif -overlay ... -run %s ; coqc cases_%s_*.v"
                            % (pid, ",".join(t for _, t in cfg["pkgs"]), pid),
             "trusted_base": tb,
-            "theorems": theorems,
+            "theorems": theorems + cinfo["theorems"],
             "evaluations": len(cases),
             "distinct_nontrivial": dn,
             "rule": cfg.get("rule", "cases generated by the Go harness from VERIF_SEED; distinct by SHA-1 of the case term; "
